@@ -192,10 +192,10 @@ func runConc(c ConcCase) (st concStats, v *Violation) {
 			switch op.K {
 			case opPut, opRePut:
 				err := s.Put(key, h.In)
-				if errors.Is(err, types.ErrKeyExists) {
+				if errors.Is(err, types.ErrKeyExists) && c.Cfg.Immutable {
 					h.Exists = true
 				} else {
-					h.Err = err
+					h.Err = err // key-exists is an answer of immutable stores only
 				}
 			case opRemove:
 				h.Removed, h.Err = s.Remove(key)
@@ -398,6 +398,12 @@ func runConc(c ConcCase) (st concStats, v *Violation) {
 	}
 	// No-error clause.
 	for _, h := range hist {
+		if h.Err != nil && errors.Is(h.Err, types.ErrKeyExists) {
+			// Not one of the ways in which overlapping writers of one key are
+			// known to fail (KF-C05): no context tag, always reported.
+			st.errs++
+			return st, viol("concurrent-error|"+h.Kind+"|key-exists-on-a-store-that-accepts-updates|", h.Idx, "task %d: %s(key %x) returned %v although the store was not opened in immutable mode", h.Task, h.Kind, c.Keys[h.Key].Digest, h.Err)
+		}
 		if h.Err != nil {
 			st.errs++
 			return st, viol("concurrent-error|"+h.Kind+"|"+errClass(h.Err)+"|"+ctxOf(h), h.Idx, "task %d: %s(key %x) returned %v", h.Task, h.Kind, c.Keys[h.Key].Digest, h.Err)
